@@ -974,7 +974,7 @@ def correspondence(ctx):
     rcases = ROLE.all_cases()
     rrng = random.Random("%s/role/%d" % (PROP, ctx.seed))
     if ctx.tier == "quick":
-        rcases = rrng.sample(rcases, min(len(rcases), 220))
+        rcases = rrng.sample(rcases, min(len(rcases), 160))
     rcases.sort(key=lambda c: (not c["linked"], c["setter"]))
     rdist = {"refused": 0, "accepted": 0}
     rpath = ctx.tmpfile("c12-role.nix")
@@ -2013,7 +2013,7 @@ def _oracle(ctx, broken, hints):
             refused += ref
     lrng = random.Random("C12-oracle-link/%d" % ctx.seed)
     lcases = []
-    while len(lcases) < ctx.budget(120, 3000) * (4 if broken and not failures else 1):
+    while len(lcases) < ctx.budget(80, 3000) * (6 if broken and not failures else 1):
         lc = LNK.gen_case(lrng)
         if LNK.applicable(lc):
             lcases.append(lc)
